@@ -32,7 +32,6 @@ import (
 	"net"
 	"os"
 	"path/filepath"
-	"sort"
 	"strings"
 	"sync"
 	"unicode/utf8"
@@ -56,6 +55,8 @@ type c02Input struct {
 	Flavour  string      `json:"flavour"` // naemon | icinga2 | shinken | plain
 	Tables   []*c02Table `json:"tables"`  // rows in the order the backend serves them
 	Short    *c02Short   `json:"short,omitempty"`
+	RefSeed  uint64      `json:"refseed"` // selects the sampled reference columns of the read back
+	RefPct   int         `json:"refpct"`
 }
 
 func init() {
@@ -451,12 +452,18 @@ func c02Modelled(col *Column) bool {
 	return false
 }
 
-func c02QueryColumns(table *Table) []string {
+// c02QueryColumns lists the read back columns: every column the model renders; in the quick tier the
+// reference columns (host_* / service_* copies, the bulk of the answer) are sampled per case (refPct percent).
+func c02QueryColumns(table *Table, r *vRand, refPct int) []string {
 	res := []string{}
 	for _, col := range table.columns {
-		if c02Modelled(col) {
-			res = append(res, col.Name)
+		if !c02Modelled(col) {
+			continue
 		}
+		if col.StorageType == RefStore && r.intn(100) >= refPct {
+			continue
+		}
+		res = append(res, col.Name)
 	}
 
 	return res
@@ -529,6 +536,11 @@ var c02FlagColumns = []struct {
 // c02ExpectedFlags is what the flavour should make lmd detect (peer.go:1622-1708).
 func c02ExpectedFlags(in *c02Input) uint32 {
 	flags := NoFlags
+	for _, t := range in.Tables {
+		if t.Name == "status" && len(t.Rows) == 0 {
+			return 0 // initialisation stops at the status table, nothing is detected
+		}
+	}
 	switch in.Flavour {
 	case "naemon":
 		flags |= Naemon
@@ -612,6 +624,7 @@ func c02RunCase(idx int, in *c02Input, intern *c02Intern) (res *c02Result) {
 	captured := wire.captured
 	wire.mu.Unlock()
 
+	refRand := newVRand(in.RefSeed)
 	for _, tn := range Objects.UpdateTables {
 		table := Objects.Tables[tn]
 		cap := captured[tn.String()]
@@ -637,7 +650,7 @@ func c02RunCase(idx int, in *c02Input, intern *c02Intern) (res *c02Result) {
 			obs.rows = append(obs.rows, fmt.Sprintf("(%d%%nat, %s)", len(row), coqList(cells)))
 		}
 		if err == nil {
-			obs.qcols = c02QueryColumns(table)
+			obs.qcols = c02QueryColumns(table, refRand, in.RefPct)
 			text := fmt.Sprintf("GET %s\nColumns: %s\nOutputFormat: json\n\n", tn.String(), strings.Join(obs.qcols, " "))
 			out, qerr := vQuery(lmd, text)
 			var rows [][]json.RawMessage
@@ -758,7 +771,7 @@ type c02Gen struct {
 func (g *c02Gen) count(k string) { g.hist[k]++ }
 
 func (g *c02Gen) longString(compressible bool) string {
-	n := vPick(g.r, []int{511, 512, 513, 700, 1500})
+	n := vPick(g.r, []int{511, 512, 513, 600, 900})
 	var sb strings.Builder
 	if compressible {
 		for sb.Len() < n {
@@ -784,11 +797,19 @@ func (g *c02Gen) str(key bool) string {
 	if key {
 		return vPick(g.r, c02Words[1:9])
 	}
-	switch g.r.intn(20) {
+	switch g.r.intn(24) {
 	case 0:
-		return g.longString(true)
+		if g.r.chance(1, 2) {
+			return g.longString(true)
+		}
+
+		return vPick(g.r, c02Words)
 	case 1:
-		return g.longString(false)
+		if g.r.chance(1, 2) {
+			return g.longString(false)
+		}
+
+		return vPick(g.r, c02Words)
 	case 2:
 		g.count("string:raw-control-byte")
 
@@ -932,7 +953,7 @@ func (g *c02Gen) genTable(name string, fixed []string, nRows int, flavourFlags O
 	for _, c := range fixed {
 		isFixed[c] = true
 	}
-	density := vPick(g.r, []int{0, 10, 30, 60})
+	density := vPick(g.r, []int{0, 10, 25, 50})
 	for _, col := range table.columns {
 		if isFixed[col.Name] || !c02Fetchable(col) || col.Name == "localtime" {
 			continue
@@ -997,19 +1018,22 @@ func c02Strs(l []string) []interface{} {
 	return res
 }
 
-func (g *c02Gen) gen() *c02Input {
-	in := &c02Input{Parallel: vPick(g.r, []int{1, 4}), Flavour: vPick(g.r, []string{"naemon", "naemon", "icinga2", "shinken", "plain"})}
+func (g *c02Gen) gen(refPct int) *c02Input {
+	in := &c02Input{RefSeed: g.r.next() % 1000000, RefPct: refPct, Parallel: vPick(g.r, []int{1, 4}), Flavour: vPick(g.r, []string{"naemon", "naemon", "icinga2", "shinken", "plain"})}
 	g.count("flavour=" + in.Flavour)
 	g.count(fmt.Sprintf("parallel=%d", in.Parallel))
 	version := map[string]string{"naemon": "1.4.2-naemon", "icinga2": vPick(g.r, []string{"r2.14.0-1", "2.4.0-icinga2"}), "shinken": "1.4-shinken", "plain": "1.2.8p1"}[in.Flavour]
 	flavourFlags := map[string]OptionalFlags{"naemon": Naemon, "icinga2": Icinga2, "shinken": Shinken, "plain": NoFlags}[in.Flavour]
 
-	hosts := g.subset(c02HostPool, g.r.intn(6))
+	hosts := g.subset(c02HostPool, g.r.intn(5))
 	type svc struct{ host, desc string }
 	svcs := []svc{}
 	svcOf := map[string][]string{}
 	for _, h := range hosts {
-		for _, d := range g.subset(c02SvcPool, g.r.intn(4)) {
+		for _, d := range g.subset(c02SvcPool, g.r.intn(3)) {
+			if len(svcs) >= 5 {
+				break
+			}
 			svcs = append(svcs, svc{h, d})
 			svcOf[h] = append(svcOf[h], d)
 		}
@@ -1101,7 +1125,7 @@ func (g *c02Gen) gen() *c02Input {
 	mkEntries := func(name string, fixed []string) *c02Table {
 		n := 0
 		if len(hosts) > 0 {
-			n = g.r.intn(6)
+			n = g.r.intn(4)
 		}
 		ids := []int64{}
 		perm := g.subset([]string{"0", "1", "2", "3", "4", "5", "6", "7", "8", "9"}, n)
@@ -1218,14 +1242,18 @@ func c02Main(args []string) int {
 	flags := verifParseStreamFlags("c02init", args)
 	meta := newVMeta("c02init", "generated datasets for all 11 cached tables: fixed key/reference columns plus a random subset (0/10/30/60 %) of every other fetched column of lmd's schema, "+
 		"cells by column type from pools with the corner values (see histogram); rows served in random order; flavour by livestatus_version and the columns table; MaxParallelPeerConnections 1|4; "+
-		"about 1 in 8 cases malformed (short row, service or comment without host, no status row). non-trivial: at least 2 rows in hosts+services+comments; distinct by input")
+		"read back: all local and modelled virtual columns, reference columns all (thorough) or a 30 % sample per case (quick); about 1 in 8 cases malformed (short row, service or comment without host, no status row). non-trivial: at least 2 rows in hosts+services+comments; distinct by input")
 	inputs := []*c02Input{}
 	gen := &c02Gen{r: newVRand(flags.seed), hist: meta.Histogram}
 	if flags.replay != "" {
 		inputs = c02ReadReplay(flags.replay)
 	} else {
+		refPct := 30
+		if flags.tier == "thorough" {
+			refPct = 100
+		}
 		for range flags.n {
-			inputs = append(inputs, c02Roundtrip(gen.gen()))
+			inputs = append(inputs, c02Roundtrip(gen.gen(refPct)))
 		}
 	}
 	a, b := c02Collision()
@@ -1255,7 +1283,6 @@ func c02Main(args []string) int {
 		panic(err)
 	}
 	meta.write(flags.meta)
-	_ = sort.Strings
 
 	return 0
 }
